@@ -288,6 +288,22 @@ class Program:
                 except SyntaxError as e:
                     raise AnalysisIncomplete('cannot parse %s: %s' % (rel, e))
         self._classify_decorators()
+        if os.environ.get('XRSA_PUBVIEW', '0') == '1':      # experiment only: see DESIGN §9
+            self._public_views()
+
+    def _public_views(self):
+        """public functions are read with their small private straight-line helpers inlined (inline.py): the rules on
+        wrappers (validation, dispatch, casts, result construction) then see the same statements whether or not a
+        maintainer has moved them into a helper"""
+        from .inline import inline_view
+        for m in self.modules.values():
+            for name, f in list(m.funcs.items()):
+                if name.startswith('_') or f.is_lambda or f.jit is not None:
+                    continue
+                g = inline_view(self, f)
+                if g is not f:
+                    m.funcs[name] = g
+                    m.allfuncs = [g if x is f else x for x in m.allfuncs]
 
     # ---------------------------------------------------------------- lookup
     def module(self, short):
